@@ -18,7 +18,7 @@ def RAISE_ORACLE(profile):
     return 'I12.raise' if profile == 'faults' else 'I01.raise'
 
 
-FAULT_KINDS = ['absent_column', 'dup_name', 'draws_outside', 'rv_outside', 'hess_without_grad', 'bad_choice_key',
+FAULT_KINDS = ['nan_inplace', 'hess_without_grad_kept', 'pandas_dropped_column', 'pandas_added_column', 'absent_column', 'dup_name', 'draws_outside', 'rv_outside', 'hess_without_grad', 'bad_choice_key',
                'bad_avail_keys', 'nan_data', 'text_data', 'empty_data', 'panel_outside', 'nests_overlap',
                'nests_outside', 'nests_overlap_far', 'panel_outside_mc', 'missing_read', 'missing_unread']
 
@@ -365,11 +365,30 @@ class Session:
                                    lambda: e.get_value_c(database=self.dbs[1 - dbi], aggregation=False, prepare_ids=True))
                     if got is not None:
                         self.cmp(f'bound formula {fi} on the other table', got, w_other)
+                        free0 = {n_: v_ for n_, v_ in betas.items() if not n_.startswith('bf')}
                         got2 = self.lib('get_value_c(prepare_ids=False) of a bound formula after a temporary renumbering',
-                                        lambda: e.get_value_c(database=self.dbs[dbi], aggregation=False, prepare_ids=False))
+                                        lambda: e.get_value_c(database=self.dbs[dbi], betas=free0, aggregation=False,
+                                                              prepare_ids=False))
                         if got2 is not None:
                             self.cmp(f'bound formula {fi} on its own table with the restored numbering', got2, w_own)
                             ctx.probe('evaluation relying on a restored numbering')
+                        # then with dictionaries: a full one, then a partial one (names that are not given take their
+                        # own value, not the one of the previous call)
+                        bk = self.betas_at(1 + a[1] % 3)
+                        w_full = self.valid_at(fi, bk, dbi)
+                        part = {n_: v_ for n_, v_ in list(self.betas_at(2).items())[:1 + a[1] % 2] if not n_.startswith('bf')}
+                        w_part = self.valid_at(fi, {**betas, **part}, dbi)
+                        if w_full is not None and w_part is not None:
+                            g3 = self.lib('get_value_c(betas=full, prepare_ids=False)', lambda: e.get_value_c(
+                                database=self.dbs[dbi], betas={n_: v_ for n_, v_ in bk.items() if not n_.startswith('bf')},
+                                aggregation=False, prepare_ids=False))
+                            if g3 is not None:
+                                self.cmp(f'bound formula {fi} at named values', g3, w_full)
+                                g4 = self.lib('get_value_c(betas=partial, prepare_ids=False)', lambda: e.get_value_c(
+                                    database=self.dbs[dbi], betas=part, aggregation=False, prepare_ids=False))
+                                if g4 is not None:
+                                    self.cmp(f'bound formula {fi} with a partial dictionary after a call at other values',
+                                             g4, w_part)
                     ctx.log(kind, fi)
         elif kind in ('SIMULATE', 'LL', 'CALC_NULL'):
             if not self.biogemes:
